@@ -159,7 +159,7 @@ def mc_jobs(ctx):
         return [("reno", cfg("reno"), ACTS, 8), ("lazy", cfg("lazy"), ACTS, 3), ("cubic", cfg("cubic"), ACTS + ("EnvTick",), 3)]
     noemit = cfg("reno").replace("CONSTRAINT Emit\n", "VIEW NoHist\n")
     return [("reno", cfg("reno"), ACTS, 4),
-            ("reno 7 events", sub(noemit, MaxEv=7, MaxSeg=6), ACTS, 6),
+            ("reno 8 events", sub(noemit, MaxEv=8, MaxSeg=6), ACTS, 6),
             ("reno 3 samples", sub(noemit, MaxEv=6, Tier='"renoT"'), ACTS, 4),
             ("lazy 5 events", sub(cfg("lazy"), MaxEv=5), ACTS, 4),
             ("cubic 6 events", sub(cfg("cubic"), MaxEv=6), ACTS + ("EnvTick",), 4)]
@@ -209,7 +209,7 @@ def run(ctx, replay=None):
         ctx.extra["histories_emitted_by_tlc"] = len(emitted)
         ctx.rng.shuffle(emitted)
         n_emit = 700 if ctx.quick else 20000
-        n_rand = 1000 if ctx.quick else 30000
+        n_rand = 1000 if ctx.quick else 60000
         scs = [from_history(ctx, h) for h in emitted[:n_emit]]
         scs += [random_history(ctx) for _ in range(n_rand)]
     traces = ctx.drive("tcpsender", scs, procs=12)
